@@ -24,9 +24,12 @@ let z_of_mz = function M.Z0 -> Z.zero | M.Zpos p -> z_of_pos p | M.Zneg p -> Z.n
 type case = {
   mutable id : string; mutable var : string; mutable kind : int; mutable nfb : int;
   mutable vt : string; mutable entry : string; mutable ops : string;
-  mutable pats : (int list * string) list; mutable hays : int list list; mutable trail : int list }
+  mutable pats : (int list * string) list; mutable hays : int list list; mutable trail : int list;
+  mutable flags : string; mutable pf : int list option; mutable pp : int list option; mutable stdin : int list;
+  mutable files : (int list * int list) list }
 let new_case () = { id = ""; var = "bw"; kind = 0; nfb = 16; vt = "u32"; entry = "build"; ops = "";
-                    pats = []; hays = []; trail = [] }
+                    pats = []; hays = []; trail = [];
+                    flags = ""; pf = None; pp = None; stdin = []; files = [] }
 let unhex s =
   if s = "-" then [] else
   List.init (String.length s / 2) (fun i -> int_of_string ("0x" ^ String.sub s (2 * i) 2))
@@ -48,6 +51,11 @@ let parse_cases ic =
      | "P" :: p :: [] -> !cur.pats <- (unhex p, "0") :: !cur.pats
      | "H" :: h :: _ -> !cur.hays <- unhex h :: !cur.hays
      | "T" :: t :: _ -> !cur.trail <- unhex t
+     | "FLAGS" :: f :: _ -> !cur.flags <- f
+     | "PF" :: x :: _ -> !cur.pf <- Some (unhex x)
+     | "PP" :: x :: _ -> !cur.pp <- Some (unhex x)
+     | "STDIN" :: x :: _ -> !cur.stdin <- unhex x
+     | "FILE" :: n :: x :: _ -> !cur.files <- !cur.files @ [(unhex n, unhex x)]
      | "END" :: _ ->
        let c = !cur in
        c.pats <- List.rev c.pats; c.hays <- List.rev c.hays; out := c :: !out
@@ -385,6 +393,33 @@ let run_cw (c : case) =
     if String.contains c.ops 'D' then pr "DET 1\n";
     if String.contains c.ops 'M' then pr "THREADS 1 1\n"
 
+(* ---- daacfind ---- *)
+let hex_of (l : M.n list) = if l = [] then "-" else String.concat "" (List.map (fun b -> Printf.sprintf "%02x" (int_of_n b)) l)
+let run_cli (c : case) =
+  let fl = { M.cf_color = String.contains c.flags 'c'; M.cf_lineno = String.contains c.flags 'n';
+             M.cf_nofilename = String.contains c.flags 'h' } in
+  let o f = match f with Some x -> Some (nlist x) | None -> None in
+  let files = List.map (fun (n, x) -> (nlist n, nlist x)) c.files in
+  (match M.cli_main fl (o c.pf) (o c.pp) (nlist c.stdin) files with
+   | M.Ok (out, st) -> pr "OUT %s\n" (hex_of out); pr "EXIT %d\n" (int_of_n st)
+   | M.Panic _ -> pr "OUT !panic\nEXIT 101\n"
+   | M.UB _ -> pr "OUT !ub\n"
+   | M.OutOfFuel -> pr "OUT !fuel\n"
+   | M.Err _ -> pr "OUT !err\n");
+  (* the property text: per input line, all occurrences of the patterns (extracted Spec) *)
+  let pats = M.cli_patterns (o c.pf) (o c.pp) in
+  (match M.spec_build_error pats with
+   | None -> pr "SPECBUILD ok\n"
+   | Some k -> pr "SPECBUILD err:%s\n" (err_name k));
+  let pvs = List.map (fun p -> (p, M.Z0)) pats in
+  let srcs = if files = [] then [("-", nlist c.stdin)] else List.map (fun (n, x) -> (hex_of n, x)) files in
+  List.iter (fun (name, content) ->
+      List.iteri (fun k line ->
+          let occs = M.spec_overlapping pvs line in
+          pr "SPECLINE %s %d %s%s\n" name k (hex_of line)
+            (String.concat "" (List.map (fun ((s, e), _) -> Printf.sprintf " %d,%d" (int_of_nat s) (int_of_nat e)) occs)))
+        (M.buf_lines content)) srcs
+
 let () =
   let spec_only = Array.length Sys.argv > 2 && Sys.argv.(1) = "--spec-only" in
   let ic = open_in (if spec_only then Sys.argv.(2) else Sys.argv.(1)) in
@@ -393,10 +428,14 @@ let () =
   List.iter (fun c ->
       Buffer.clear buf;
       pr "CASE %s\n" c.id;
-      if not spec_only then
-        (try if c.var = "bw" then run_bw c else run_cw c
-         with Stack_overflow -> pr "!stackoverflow\n");
-      (try spec_build c; if String.contains c.ops 'S' then spec_searches c
-       with Stack_overflow -> pr "SPEC!stackoverflow\n");
+      if c.var = "cli" then
+        (try run_cli c with Stack_overflow -> pr "!stackoverflow\n")
+      else begin
+        if not spec_only then
+          (try if c.var = "bw" then run_bw c else run_cw c
+           with Stack_overflow -> pr "!stackoverflow\n");
+        (try spec_build c; if String.contains c.ops 'S' then spec_searches c
+         with Stack_overflow -> pr "SPEC!stackoverflow\n")
+      end;
       pr "END %s\n" c.id;
       print_string (Buffer.contents buf); flush stdout) cases
